@@ -6,7 +6,7 @@ EXPLANATION = ("Decides necessary structural conditions of exact deadlock report
                "the discipline of Thread.state (S1-S8: who may block/wake whom, guarded by what), the deadlock "
                "assertion in Execution::schedule (D1) and the derivation of blocking conditions from object state (D2). "
                "A pass means all clauses hold, never that the behaviour holds for every interleaving."
-               " The block loop of post_acquire* is unconditional on the success path (S5b); G0/G1 cross-check the block/wake/unpark/schedule/terminate steps against the reference tree.")
+               " The block loop of post_acquire* is unconditional on the success path (S5b); G0/G1 cross-check the block/wake/unpark/schedule/terminate steps against the reference tree. A pending non-blocking try operation is never marked Blocked by another thread's acquire (S10); a thread that left Condvar::wait is not left in the waiter queue (W6): both would be deadlock reports that cannot happen.")
 RULE_TEXT = ("rule instances = transition sites of Thread.state / blocking call sites found in the resolved call graph; "
              "an instance is non-trivial when it matched at least one concrete MIR call site")
 LEVEL_NOTE = "necessary conditions only; per-interleaving bookkeeping is not decided"
@@ -23,4 +23,6 @@ def run(ctx):
     from . import C08, tlsrules
     C08.W2(ctx)
     C08.W3(ctx)
+    from . import round6
+    round6.W6(ctx)
     tlsrules.U3(ctx)
